@@ -1,4 +1,5 @@
 import Invoke.Lemmas.Decode
+import Invoke.Lemmas.Utf8Roundtrip
 import Invoke.Lemmas.RunnerIO
 import Invoke.Lemmas.RunnerMirror
 /-! # C02 — captured and mirrored command output equals what the command wrote
@@ -29,6 +30,13 @@ theorem perchunk_counterexample :
 
 example : utf8.decodeIncremental [[0x63, 0x61, 0x66, 0xC3], [0xA9, 0x21]] = "café!".toList := by decide
 example : utf8.decodeWhole [0xE2, 0x82, 0xFF, 0x41] = [repl, repl, 'A'] := by decide
+
+/-- a command that writes the UTF-8 encoding of a text - in reads of any sizes, ending inside characters or not - is
+    captured as exactly that text (no replacement character, nothing lost): the `U8` machine against `u8bytes` -/
+theorem utf8_text_captured_exactly (cs : List Nat) (hv : ∀ c ∈ cs, ValidCp c) (reads : List (List Byte))
+    (hr : reads.flatten = cs.flatMap u8bytes) :
+    utf8.decodeIncremental reads = cs.map Char.ofNat := by
+  rw [chunked_decode_eq_whole, hr, utf8_decode_encode cs hv]
 
 /-- (b) conservation along EVERY schedule from every initial configuration:
     captured ++ still in the pipe = everything written so far, on both streams -/
